@@ -106,7 +106,7 @@ func init() {
 	uses("C01", layerDec, []string{"FX-OWN@uadd|usub|umul|uquo", "T-ARITH-ALIAS@Add(|Sub(|Mul(|Quo(", "FX-RAW@(*Decimal).Add|(*Decimal).Sub|(*Decimal).Mul|(*Decimal).Quo", "GUARD"})
 	uses("C04", []string{"T-ARITH-ALIAS", "FX-RAW"})
 	uses("C06", []string{"LOWCUT", "MUSTFLOW@remainder", "QUOLEN"})
-	uses("C17", layerRound, layerDec, []string{"T-UNARY@SetPrec(", "NORM"})
+	uses("C17", layerRound, layerDec, []string{"T-UNARY@SetPrec(", "NORM", "SIGN@GobDecode", "FX-RBW@GobDecode"})
 	uses("C02", layerRound, layerUops, layerDec, []string{"PRECWRAP@SetInt"})
 	uses("C03", layerRound, layerUops, layerDec, []string{"CTX@.FMA"})
 	uses("C05", layerRound, layerUops, layerDec, layerArith)
@@ -248,7 +248,7 @@ func initProps() {
 		"round-trip equality of digits and exponent: NOT APPLICABLE to static analysis (digit placement in fmtE/fmtF/itoa and digit accumulation in scan are loop arithmetic over run-time values); this check is a thin necessary-condition claim only",
 		"shape rules over the SSA form of the writers and the reader (constants written vs constants compared), write-set analysis, table evaluation", fxAssume)
 	p("C12",
-		[]string{"ERRNIL", "ERRDROP", "SCANSHAPE", "CONST@decMaxPow", "FX-RBW@(*Decimal).scan|(*Decimal).Parse|SetString|UnmarshalText|(*Decimal).Scan", "PREC0@scan|Parse|SetString|UnmarshalText|(*Decimal).Scan", "FX-STICKY@(*Decimal).scan|(*Decimal).Parse", "FX-ACC@scan", "DECNORM@dec.scan|mulAddWW|setWord", "SHIFTW"},
+		[]string{"ERRNIL", "ERRDROP", "SCANSHAPE", "CONST@decMaxPow", "FX-RBW@(*Decimal).scan|(*Decimal).Parse|SetString|UnmarshalText|(*Decimal).Scan", "PREC0@scan|Parse|SetString|UnmarshalText|(*Decimal).Scan", "FX-STICKY@(*Decimal).scan|(*Decimal).Parse", "FX-ACC@scan", "DECNORM@dec.scan|mulAddWW|setWord", "SHIFTW", "WORKPREC@scan|pow2|ParseDecimal"},
 		[]string{
 			"ERRNIL: on every return (per φ edge) of scan, Parse, SetString, ParseDecimal and the context wrappers a possibly non-nil error comes with the nil *Decimal and a nil error with a non-nil one (SetString: flag true exactly with a non-nil result); Parse reports success only on paths where the reader returned io.EOF after the number (no trailing characters).",
 			"ERRDROP: every error returned by a callee inside the scanners is consumed (the three explicit `_ = r.UnreadByte()` excepted).",
@@ -256,15 +256,17 @@ func initProps() {
 			"CONST: decMaxPow tables; FX-RBW/PREC0/FX-STICKY/FX-ACC: scan reads nothing of the old receiver, rounds only with an examined precision (34 for 0), keeps the mode, and defines the accuracy.",
 			"DECNORM: dec.scan returns a normalised mantissa on every path (also when whole words of leading zeros were shifted in).",
 			"SHIFTW: pow2 (the scale factor of a literal with a binary exponent) shifts 1 << n only behind n < width.",
+			"WORKPREC: the temporaries of the parser take their precision from the receiver's, not from MinPrec().",
 		},
 		"rounding of long literals, accuracy of the binary-exponent path (pow2), and agreement of the accepted language with math/big (would need the upstream source as a frozen reference); the separator automata of dec.scan/scanExponent",
 		"nil-ness facts from dominating branch edges on the SSA form, per return and φ edge; use-def checks on error results; shape rules on the radix switch", fxAssume)
 	p("C13",
-		[]string{"FMTSHAPE@Append|Format|fmtB", "FX-IMMUT@(*Decimal).Append|(*Decimal).Text|(*Decimal).String|(*Decimal).Format|(*Decimal).fmt|(*Decimal).toa", "LOWCUT", "STALE@toa|exp10|Append|Text|bufSizeForFmt|fmt"},
+		[]string{"FMTSHAPE@Append|Format|fmtB", "FX-IMMUT@(*Decimal).Append|(*Decimal).Text|(*Decimal).String|(*Decimal).Format|(*Decimal).fmt|(*Decimal).toa", "LOWCUT", "STALE@toa|exp10|Append|Text|bufSizeForFmt|fmt", "WORKPREC@Append"},
 		[]string{
 			"FMTSHAPE: with an explicit precision Append rounds a fresh copy (never x) that was given x's rounding mode; the precision it requests must be provably non-zero (0 means `keep the operand's precision`, i.e. no rounding) — this obligation FAILS on the pinned tree and is the known finding F12; Format has a case for every documented verb (e E f F g G b p v s) and consults the flags + space 0 - and width/precision.",
 			"FX-IMMUT: formatting never writes its operand.",
 			"STALE: every read of x.exp / x.mant in the formatting path is behind a finiteness test (the exponent thresholds of %g/%f applied to a zero use 0, not the exponent of whatever finite value the variable held before, DESIGN §5 F20).",
+			"WORKPREC: the rounding copy made by Append takes the requested digit count, not a MinPrec()-derived one.",
 		},
 		"digit counts, %g exponent thresholds, padding and layout: NOT APPLICABLE to static analysis (arithmetic on run-time lengths); thin necessary-condition claim only",
 		"shape rules on the SSA form of Append/Format (receiver chain of the rounding copy, dominance of the precision test, lower-bound reasoning on the requested precision)", fxAssume)
@@ -284,7 +286,7 @@ func initProps() {
 		"exactness of the radix conversions and of SetInt's precision estimate (numeric)",
 		techCDAI, cdaiAssume, fxAssume)
 	p("C15",
-		[]string{"T-CONV@SetFloat", "FX-RBW@SetFloat", "FX-STICKY@SetFloat", "OUTPARAM@Float/", "PRECWRAP@SetFloat", "NATLEN", "STALE@Float", "SHIFTW"},
+		[]string{"T-CONV@SetFloat", "FX-RBW@SetFloat", "FX-STICKY@SetFloat", "OUTPARAM@Float/", "PRECWRAP@SetFloat", "NATLEN", "STALE@Float", "SHIFTW", "WORKPREC"},
 		[]string{
 			"T-CONV: SetFloat64 and SetFloat dispatch on the ARGUMENT's class: NaN -> ErrNaN, ±0 and ±Inf map to themselves with the argument's sign and Exact accuracy, a finite value enters the scaling arithmetic with the argument's sign and is rounded last with the receiver's precision.",
 			"FX-RBW: neither reads the receiver's previous form/sign; FX-STICKY: the temporary precision increment is undone on every exit.",
@@ -292,6 +294,7 @@ func initProps() {
 			"NATLEN: Float/Float64/Float32 go through decToNat: its word count formula leaves room for the largest integer of the operand's digit count.",
 			"STALE: Float reads x.exp / x.mant only under `case finite`.",
 			"SHIFTW: the power of two that scales a binary mantissa is built as 1 << n only behind n < width of the shifted type (at n = width the shift yields 0 and SetFloat64 maps a whole binade to 0 or Inf).",
+			"WORKPREC: the precision of every temporary on the conversion paths (the big.Float powers of five in Float, the scaling Decimals of SetFloat/SetFloat64) is computed from a destination's Prec(), never from MinPrec() (the digits an operand happens to hold).",
 		},
 		"nearest/faithful rounding of the conversions, double rounding in Float32/Float64 (numeric, not applicable)",
 		techCDAI, cdaiAssume, fxAssume)
